@@ -220,4 +220,33 @@ theorem C03_honest_wins_counterexample_commits_false :
     (tipRound Cex.H Cex.s (Cex.net 0)).1.fstore = [1, 107] ∧
     (tipRound Cex.H Cex.s (Cex.net 0)).1.bans = [(2, 3)] := by decide
 
+
+namespace CexZero
+/-- peer 1 honest; peer 2 advertises the all-zero filter hash and serves nothing.
+The map iteration meets peer 2 first in the mismatch test (the zero hash is
+taken for "no value yet", so no mismatch is seen) and in the final pick. -/
+def net : Net :=
+  { peers := [2, 1]
+    resps := fun p => if p = 2 then [⟨true, 1, [0]⟩] else [⟨true, 1, [7]⟩]
+    served := fun p _ => if p = 1 then some 7 else none
+    verify := fun _ _ => .ok 0
+    getBlock := fun _ => true
+    pick := 0 }
+end CexZero
+
+/-- second, independent counterexample to clause (d) (finding
+`zero-hash-sentinel`): `checkForCFHeaderMismatch` uses the all-zero hash as
+"unset", so a peer advertising it is not seen to disagree when the map iteration
+meets it first; it is not banned and `H 0 tip` can be committed.  Not of the F12
+shape. -/
+theorem C03_honest_wins_counterexample_zero :
+    ¬ HonestWinsAt Cex.H Cex.s CexZero.net Cex.truth ∧
+    (roundOf Cex.s CexZero.net Cex.truth).hyp = true ∧
+    (roundOf Cex.s CexZero.net Cex.truth).shapeEarlyReturn = false ∧
+    (roundOf Cex.s CexZero.net Cex.truth).noZero = false ∧
+    (tipRound Cex.H Cex.s CexZero.net).1.fstore = [1, 100] ∧
+    (tipRound Cex.H Cex.s CexZero.net).1.bans = [] := by
+  unfold HonestWinsAt
+  decide
+
 end Neutrino.CFHeaders
